@@ -24,7 +24,7 @@ From Coq Require Import List String Bool PrimFloat Permutation.
 From Verif Require Import Base.Sexp Spec.Grammar Spec.Faithful Proofs.C01_Defs.   (* before C03_Defs: its names win *)
 From Verif Require Import Base.Result Base.Str Base.PyDict Model.Types Model.Domain Model.Exec Spec.Pddl
   Proofs.C03_Spec Proofs.C03_Defs Proofs.C03_Refine Proofs.C03_Main Proofs.C03_Inner Proofs.C03_Examples
-  Corr.Core Proofs.C03_Judge Proofs.C03_Closed Proofs.C03_Parsed Proofs.C03_Seq.
+  Corr.Core Proofs.C03_Judge Proofs.C03_Closed Proofs.C03_Parsed Proofs.C03_Seq Proofs.C03_Weak Proofs.C03_WeakModel.
 Import ListNotations.
 
 (* C03_successor.  For EVERY visiting order of the effect groups and of the universal effects the model returns a
@@ -330,7 +330,31 @@ Theorem C03_repeated_application_example :
                    (spec_chain tk_dom ex_eps tk_args tk_objs (spec_action tk_act tk_effs) tk_state tk_allows).
 Proof. exact (conj tk_hyps (conj (proj1 tk_chain) tk_refines)). Qed.
 
+(* ---------- calls whose firing groups are INCONSISTENT (outside the property: PDDL defines no successor there) ----------
+   The correspondence check judges what the library returns for such calls by weak_succ_ok (Proofs/C03_Weak.v): an atom
+   that a group adds and no OTHER group deletes is present, an atom that is only deleted is absent, an atom added by one
+   group and deleted by another may be either, a fluent that firing effects set holds one of the values they computed
+   in the pre-state, every other fact and fluent is unchanged.  The oracle raises no false alarm: the outcome of the
+   firing groups applied one after another in ANY order passes it ... *)
+Theorem C03_inconsistent_oracle_sound :
+  forall (s : state) (gs gs' : list (list gprim)), Permutation gs gs' -> weak_succ_ok s gs (succ s gs') = true.
+Proof. exact weak_succ_sound. Qed.
+
+(* ... and so does what the model returns, in every visiting order, with or without consistency *)
+Theorem C03_inconsistent_model_passes :
+  forall (d : mdomain) (eps : float) (a : maction) (effs : list eff) (args : list string) (ga : gaction)
+         (objs : objects) (s : state) (allow b : bool),
+    denote_effs a = Some effs -> names_ok d a = true -> ground_action d a args = Ok ga ->
+    evaluates d eps objs ga s ->
+    is_applicable d eps (Some objs) ga s = Ok b -> (b = true \/ allow = true) ->
+    forall order uorder, is_order order (List.length (ga_groups ga)) -> is_order uorder (List.length (ma_univ a)) ->
+    exists s', apply_op d eps ga (Some objs) allow false order uorder s = Ok s' /\
+               weak_succ_ok s (all_groups eps (d_types d) objs (spec_action a effs) args s) s' = true.
+Proof. exact inconsistent_passes. Qed.
+
 Print Assumptions C03_successor.
+Print Assumptions C03_inconsistent_oracle_sound.
+Print Assumptions C03_inconsistent_model_passes.
 Print Assumptions C03_repeated_application.
 Print Assumptions C03_repeated_application_example.
 Print Assumptions C03_parsed_denotes.
